@@ -33,9 +33,17 @@ THEOREMS = {
 # literals
 # ----------------------------------------------------------------------------------------
 
+BIG = 2 ** 200  # stands for a non-finite implementation output: never within tolerance of a model value
+
+
 def zs(x):
-    """float -> Z on the 2^-40 grid"""
-    return int(round(Fraction(float(x)) * SCALE))
+    """float -> Z on the 2^-40 grid (non-finite: a sentinel no model value is close to)"""
+    x = float(x)
+    if math.isnan(x):
+        return 3 * BIG
+    if math.isinf(x):
+        return BIG if x > 0 else -BIG
+    return int(round(Fraction(x) * SCALE))
 
 
 def lz(x):
@@ -82,6 +90,65 @@ def _scaled(t):
 
 
 # ----------------------------------------------------------------------------------------
+# extreme-magnitude regime ("xm"): logits far outside O(1)-O(10), still exact k/4 values in float32 and float64
+# ----------------------------------------------------------------------------------------
+
+XM_MODES = ("scale", "shift", "dom", "scale+shift", "dom+shift", "mix")
+DTYPES = {None: torch.float64, "f64": torch.float64, "f32": torch.float32}
+
+
+def xm_row(row, r, mode):
+    """row of ints (units of 1/4 nat, |k| <= 8) -> extreme row, ints in units of 1/4 nat, |value| < 2^15 nats.
+    scale: times 100..1000; shift: common offset of -1e3..+1e3 nats (differences stay O(1)); dom: one logit dominates by
+    90..900 nats, so that the other probabilities are subnormal or exactly 0 in float32 (> ~104) / float64 (> ~745)"""
+    if mode == "mix":
+        mode = r.choice(("scale", "shift", "dom", "scale+shift", "dom+shift", "plain"))
+    out = list(row)
+    if not out:
+        return out
+    if "scale" in mode:
+        k = r.randint(100, 1000)
+        out = [v * k for v in out]
+    if "dom" in mode:
+        j = r.randrange(len(out))
+        out[j] += 4 * r.choice((r.randint(90, 130), r.randint(130, 700), r.randint(700, 900)))
+    if "shift" in mode:
+        o = r.choice((-1, 1)) * r.choice((r.randint(0, 4000), r.randint(2800, 4000), 4000))
+        out = [v + o for v in out]
+    return out
+
+
+def xm_apply(lg, V, case, tag):
+    """apply the case's extreme regime row by row to a flat list of logits (rows of V)"""
+    mode = case.get("xm")
+    if not mode or V == 0:
+        return lg
+    r = rnd(case, "xm|" + tag)
+    return [v for i in range(0, len(lg), V) for v in xm_row(lg[i:i + V], r, mode)]
+
+
+def case_dtype(case):
+    return DTYPES[case.get("dtype")]
+
+
+def tols(case, nterms, maxv):
+    """(tolerance in grid units for model-vs-implementation, float tolerance for implementation-vs-implementation) of a sum of
+    nterms log-probabilities of magnitude <= maxv. Plain float64 cases: the fixed TOL. Extreme float64: plus the rounding of
+    the implementation's own float64 sum, nterms * ulp(nterms * maxv). float32: the implementation's log_softmax and sum are
+    float32, 2^-19 * (nterms + 1) * (1 + maxv) bounds (nterms <= 12) 1.5 ulp per term plus the rounding of the partial sums"""
+    if case.get("dtype") == "f32":
+        f = (nterms + 1) * (1.0 + maxv) * 2.0 ** -19
+        return TOL + int(math.ceil(f * SCALE)), f
+    if case.get("xm"):
+        return TOL + int(math.ceil((nterms + 1) * maxv * 2.0 ** -50 * SCALE)), ATOL
+    return TOL, ATOL
+
+
+def absmax(t):
+    return float(t.abs().max()) if t.numel() else 0.0
+
+
+# ----------------------------------------------------------------------------------------
 # sequence_log_probs (tensor)
 # ----------------------------------------------------------------------------------------
 
@@ -100,7 +167,7 @@ def slp_data(case):
     else:
         r = rnd(case, "logits")
         lg = [r.randint(-8, 8) for _ in range(n * V)]
-    return hyp, lg
+    return hyp, xm_apply(lg, V, case, "slp")
 
 
 def slp_eval(case):
@@ -108,7 +175,7 @@ def slp_eval(case):
     shape, V, dim, eos = case["shape"], case["V"], case["dim"], case["eos"]
     hyp_l, lg_l = slp_data(case)
     hyp = torch.tensor(hyp_l, dtype=torch.long).view(shape)
-    logits = torch.tensor(lg_l, dtype=torch.float64).view(shape + [V]) / 4
+    logits = (torch.tensor(lg_l, dtype=torch.float64).view(shape + [V]) / 4).to(case_dtype(case))  # exact in float32 too
     nd = len(shape)
     res = {"terms": [], "spec": [], "fail": [], "nontrivial": False}
     try:
@@ -124,7 +191,12 @@ def slp_eval(case):
     d = dim % nd
     A_, T, B_ = prod(shape[:d]), shape[d], prod(shape[d + 1:])
     hyp3 = hyp.reshape(A_, T, B_)
-    ls = logits.log_softmax(-1).reshape(A_, T, B_, V)
+    ls = logits.double().log_softmax(-1).reshape(A_, T, B_, V)  # the oracle is float64 whatever the input dtype
+    tol, _ = tols(case, T, absmax(ls))
+    if case.get("xm") and V:
+        p = logits.softmax(-1).reshape(A_, T, B_, V)
+        inv = (hyp3 >= 0) & (hyp3 < V)
+        res["zero_prob_token"] = bool(((p.gather(-1, hyp3.clamp(0, V - 1).unsqueeze(-1)).squeeze(-1) == 0) & inv).any())
     lp_c = lz(_scaled(ls))
     if exc is not None:
         res["impl"] = exc
@@ -140,9 +212,11 @@ def slp_eval(case):
         o2 = out.reshape(A_, B_)
         res["impl"] = o2.tolist()
         impl_c = co(lz(_scaled(o2)))
+        if out.dtype != logits.dtype:
+            res["fail"].append(f"output dtype {out.dtype} for {logits.dtype} logits")
         if not torch.isfinite(out).all():
-            res["fail"].append("non-finite output")
-    res["terms"].append(("model", f"check_slp_tensor {cz(TOL)} {cz(V)} {oz(eos)} {cn(T)} {cn(B_)} {lp_c} {lz(hyp3.tolist())} {impl_c}"))
+            res["fail"].append("non-finite output (finite logits: every log-probability is finite, the float64 oracle's is)")
+    res["terms"].append(("model", f"check_slp_tensor {cz(tol)} {cz(V)} {oz(eos)} {cn(T)} {cn(B_)} {lp_c} {lz(hyp3.tolist())} {impl_c}"))
     if exc is None:
         lps, hyps, flat = [], [], []
         for a in range(A_):
@@ -150,7 +224,7 @@ def slp_eval(case):
                 lps.append(_scaled(ls[a, :, b]) if T else [])
                 hyps.append(hyp3[a, :, b].tolist())
                 flat.append(zs(o2[a, b].item()))
-        res["spec"].append(("spec_slp", f"spec_slp_okb {cz(TOL)} {cz(V)} {oz(eos)} {lz(lps)} {lz(hyps)} {lz(flat)}"))
+        res["spec"].append(("spec_slp", f"spec_slp_okb {cz(tol)} {cz(V)} {oz(eos)} {lz(lps)} {lz(hyps)} {lz(flat)}"))
         # non-trivial: some sequence has an out-of-vocabulary token or an eos before its last position
         for h in hyps:
             if len(h) >= 2 and (any(k < 0 or k >= V for k in h) or (eos is not None and eos in h[:-1])):
@@ -170,7 +244,8 @@ def ps_eval(case):
     N, Tm = len(lens), max(lens)
     Th = Tm + case["Tpad"]
     r = rnd(case, "ps")
-    lg = torch.tensor([r.randint(-8, 8) for _ in range(Tm * N * V)], dtype=torch.float64).view(Tm, N, V) / 4
+    lg = xm_apply([r.randint(-8, 8) for _ in range(Tm * N * V)], V, case, "ps")
+    lg = (torch.tensor(lg, dtype=torch.float64).view(Tm, N, V) / 4).to(case_dtype(case))
     pool = list(range(V)) * 3 + [-1, V] + ([eos] if eos is not None else [])
     hyp = torch.tensor([r.choice(pool) for _ in range(Th * N)], dtype=torch.long).view(Th, N)
     ps = torch.nn.utils.rnn.pack_padded_sequence(lg, torch.tensor(lens), enforce_sorted=bool(case["sorted"]))
@@ -188,26 +263,31 @@ def ps_eval(case):
     if tuple(out.shape) != (N,):
         res["fail"].append(f"output shape {tuple(out.shape)}")
         return res
-    data = _scaled(ps.data.log_softmax(-1))
+    if out.dtype != lg.dtype:
+        res["fail"].append(f"output dtype {out.dtype} for {lg.dtype} logits")
+    if not torch.isfinite(out).all():
+        res["fail"].append("non-finite output (finite logits: every log-probability is finite, the float64 oracle's is)")
+    ls = lg.double().log_softmax(-1)  # the oracle is float64 whatever the input dtype
+    tol, atol = tols(case, Tm, absmax(ls))
+    data = _scaled(ps.data.double().log_softmax(-1))
     bs = ps.batch_sizes.tolist()
     sidx = None if ps.sorted_indices is None else ps.sorted_indices.tolist()
     uidx = None if ps.unsorted_indices is None else ps.unsorted_indices.tolist()
     impl = [zs(x) for x in out.tolist()]
-    res["terms"].append(("model", f"check_slp_ps {cz(TOL)} {cz(V)} {lz(data)} {ln(bs)} {co(ln(sidx)) if sidx is not None else 'None'} "
+    res["terms"].append(("model", f"check_slp_ps {cz(tol)} {cz(V)} {lz(data)} {ln(bs)} {co(ln(sidx)) if sidx is not None else 'None'} "
                                   f"{co(ln(uidx)) if uidx is not None else 'None'} {cn(N)} {lz(hyp.tolist())} {lz(impl)}"))
-    ls = lg.log_softmax(-1)
-    res["terms"].append(("model_pack", f"check_pack 2 {lz(_scaled(ls))} {ln(lens)} {co(ln(sidx)) if sidx is not None else 'None'} "
+    res["terms"].append(("model_pack", f"check_pack {8 if case.get('xm') else 2} {lz(_scaled(ls))} {ln(lens)} {co(ln(sidx)) if sidx is not None else 'None'} "
                                        f"{lz(data)} {ln(bs)}"))
     lps = [_scaled(ls[:lens[n], n]) for n in range(N)]
     hyps = [hyp[:lens[n], n].tolist() for n in range(N)]
-    res["spec"].append(("spec_slp_packed", f"spec_slp_okb {cz(TOL)} {cz(V)} None {lz(lps)} {lz(hyps)} {lz(impl)}"))
+    res["spec"].append(("spec_slp_packed", f"spec_slp_okb {cz(tol)} {cz(V)} None {lz(lps)} {lz(hyps)} {lz(impl)}"))
     # the property: identical for padded and packed input (padding made out-of-vocabulary)
     hyp_m = hyp[:Tm].clone()
     for n in range(N):
         hyp_m[lens[n]:, n] = -1
     try:
         pad = sequence_log_probs(lg, hyp_m, 0, None)
-        if not torch.allclose(pad, out, atol=ATOL, rtol=0):
+        if not torch.allclose(pad, out, atol=atol, rtol=0):
             res["fail"].append(f"packed {out.tolist()} != padded {pad.tolist()}")
     except Exception as e:  # noqa: BLE001
         res["fail"].append(f"padded tensor path raised {exc_kind(e)}: {str(e)[:80]}")
@@ -218,12 +298,21 @@ def ps_eval(case):
 # language model given by a table, multinomial scripted or recorded
 # ----------------------------------------------------------------------------------------
 
-def lm_logits(lmseed, by_n, n, prefix, V):
+def lm_logits(lmseed, by_n, n, prefix, V, xm=None):
     r = random.Random(f"{lmseed}|{n if by_n else 0}|{','.join(str(int(k)) for k in prefix)}")
-    return [r.randint(-8, 8) for _ in range(V)]
+    row = [r.randint(-8, 8) for _ in range(V)]
+    return xm_row(row, r, xm) if xm else row
 
 
-def make_lm(V, lmseed, by_n, rec):
+def case_logits(case, n, prefix, V):
+    """the model's logits for (path n, prefix) as the case defines them, initial-state bias included"""
+    row = lm_logits(case["lmseed"], case["by_n"], n, prefix, V, case.get("xm"))
+    if case.get("bias") is not None:
+        row = [a + b for a, b in zip(row, case["bias"])]
+    return row
+
+
+def make_lm(V, lmseed, by_n, rec, xm=None, dtype=torch.float64):
     from pydrobert.torch.modules import SequentialLanguageModel
 
     class TableLM(SequentialLanguageModel):
@@ -232,10 +321,15 @@ def make_lm(V, lmseed, by_n, rec):
             rows = []
             for n in range(N):
                 pre = tuple(int(x) for x in hist[:i, n])
-                row = lm_logits(lmseed, by_n, n, pre, V)
+                row = lm_logits(lmseed, by_n, n, pre, V, xm)
+                # conditioning through the state dictionary: an initial state {"bias": (V,)} shifts every row;
+                # a caller that forgets to hand the initial state to the model scores another distribution
+                bias = prev.get("bias") if isinstance(prev, dict) else None
+                if bias is not None:
+                    row = [a + int(b) for a, b in zip(row, bias.tolist())]
                 rec[(n, pre)] = row
                 rows.append(row)
-            return torch.tensor(rows, dtype=torch.float64).view(N, V) / 4, prev
+            return (torch.tensor(rows, dtype=torch.float64).view(N, V) / 4).to(dtype), prev
 
     return TableLM(V)
 
@@ -290,20 +384,28 @@ def norm_eos(eos, V):
     return None if eos is None else (eos + V) % V
 
 
+def walk_maxv(case):
+    """a drawn token has a non-zero probability in the walk's dtype: |log-probability| < 104 (float32), < 746 (float64)"""
+    if not case.get("xm"):
+        return 8.0
+    return 110.0 if case.get("dtype") == "f32" else 750.0
+
+
 def walk_terms(case, V, eos, N, max_iters, rec_tab, draws, y, lens, lp, res, tag=""):
     """y: S x N list, lens list, lp list of floats"""
     S = len(y)
-    res["terms"].append((f"model_walk{tag}", f"check_walk {cz(TOL)} {rec_tab} {oz(eos)} {cn(N)} {on(max_iters)} {lz(draws)} "
+    tol, _ = tols(case, S, walk_maxv(case))
+    res["terms"].append((f"model_walk{tag}", f"check_walk {cz(tol)} {rec_tab} {oz(eos)} {cn(N)} {on(max_iters)} {lz(draws)} "
                                              f"{lz(y)} {ln(lens)} {lz([zs(x) for x in lp])}"))
     paths = [[y[t][n] for t in range(S)] for n in range(N)]
     rows = []
     for n in range(N):
         rr = []
         for t in range(S):
-            lg = lm_logits(case["lmseed"], case["by_n"], n, paths[n][:t], V)
+            lg = case_logits(case, n, paths[n][:t], V)
             rr.append([zs(x) for x in (torch.tensor(lg, dtype=torch.float64) / 4).log_softmax(-1).tolist()])
         rows.append(rr)
-    res["spec"].append((f"spec_walk{tag}", f"spec_walk_okb {cz(TOL)} {cz(V)} {oz(eos)} {on(max_iters)} {lz(paths)} {lz(rows)} {ln(lens)} "
+    res["spec"].append((f"spec_walk{tag}", f"spec_walk_okb {cz(tol)} {cz(V)} {oz(eos)} {on(max_iters)} {lz(paths)} {lz(rows)} {ln(lens)} "
                                            f"{lz([zs(x) for x in lp])}"))
     return paths
 
@@ -314,7 +416,7 @@ def walk_eval(case):
     V, N, max_iters = case["V"], case["N"], case["max_iters"]
     res = {"terms": [], "spec": [], "fail": [], "nontrivial": False}
     rec = {}
-    lm = make_lm(V, case["lmseed"], case["by_n"], rec)
+    lm = make_lm(V, case["lmseed"], case["by_n"], rec, case.get("xm"), case_dtype(case))
     try:
         walk = RandomWalk(lm, case["eos"])
     except ValueError:
@@ -353,15 +455,18 @@ def walk_eval(case):
         return res
     yl, ll, lpl = y.tolist(), lens.tolist(), lp.tolist()
     res["impl"] = {"y": yl, "lens": ll, "lp": lpl, "draws": draws}
+    if not torch.isfinite(lp).all():
+        res["fail"].append(f"non-finite walk log-probability {lpl} (a drawn token has a non-zero probability)")
     paths = walk_terms(case, V, eos, Nn, max_iters, table_term(rec), draws, yl, ll, lpl, res)
     S = len(yl)
     # the three-way agreement of the property, on the implementation itself
     if S and Nn:
-        lg = torch.tensor([[lm_logits(case["lmseed"], case["by_n"], n, paths[n][:t], V) for n in range(Nn)]
-                           for t in range(S)], dtype=torch.float64).view(S, Nn, V) / 4
+        lg = (torch.tensor([[case_logits(case, n, paths[n][:t], V) for n in range(Nn)]
+                            for t in range(S)], dtype=torch.float64).view(S, Nn, V) / 4).to(case_dtype(case))
+        _, atol = tols(case, S, walk_maxv(case))
         try:
             slp = sequence_log_probs(lg, y, 0, eos)
-            if not torch.allclose(slp, lp.double(), atol=ATOL, rtol=0):
+            if not torch.allclose(slp.double(), lp.double(), atol=atol, rtol=0):
                 res["fail"].append(f"walk log-probs {lpl} != sequence_log_probs of the model outputs {slp.tolist()}")
         except Exception as e:  # noqa: BLE001
             res["fail"].append(f"sequence_log_probs on the walk's paths raised {exc_kind(e)}: {str(e)[:80]}")
@@ -379,10 +484,13 @@ def dist_eval(case):
     V, bsz, T, shape = case["V"], case["batch_size"], case["max_iters"], list(case["sample_shape"])
     res = {"terms": [], "spec": [], "fail": [], "nontrivial": False}
     rec = {}
-    lm = make_lm(V, case["lmseed"], case["by_n"], rec)
+    lm = make_lm(V, case["lmseed"], case["by_n"], rec, case.get("xm"), case_dtype(case))
     walk = RandomWalk(lm, case["eos"])
     eos = norm_eos(case["eos"], V)
-    dist = SequentialLanguageModelDistribution(walk, bsz, None, T, cache_samples=case["cache"],
+    init = None
+    if case.get("bias") is not None:
+        init = {"bias": torch.tensor(case["bias"], dtype=torch.long)}
+    dist = SequentialLanguageModelDistribution(walk, bsz, init, T, cache_samples=case["cache"],
                                                validate_args=case["validate"])
     sampler = Sampler(case, eos)
     walks = []
@@ -446,6 +554,7 @@ def dist_eval(case):
         res["fail"].append(f"support.check raised {exc_kind(e)}")
     # re-scoring
     res["nontrivial"] = True
+    tol, atol = tols(case, S, walk_maxv(case))
     lps = []
     for variant in ("first", "again", "cleared"):
         if variant == "cleared":
@@ -464,14 +573,16 @@ def dist_eval(case):
         if tuple(lp.shape) != exp_prefix:
             res["fail"].append(f"log_prob shape {tuple(lp.shape)} ({v})")
             return res
-        if not torch.allclose(lp.double(), walk_lp, atol=ATOL, rtol=0):
+        if not torch.isfinite(lp).all():
+            res["fail"].append(f"non-finite log_prob ({v}) {lp.tolist()} of the wrapper's own sample")
+        elif not torch.allclose(lp.double(), walk_lp, atol=atol, rtol=0):
             res["fail"].append(f"log_prob ({v}) {lp.tolist()} != walk log-probs {walk_lp.tolist()}")
     tab = table_term(rec)
     if bsz is None:
-        res["terms"].append(("model_log_prob", f"check_dist_log_prob {cz(TOL)} {tab} {cz(V)} {oz(eos)} {lz(flat.tolist())} "
+        res["terms"].append(("model_log_prob", f"check_dist_log_prob {cz(tol)} {tab} {cz(V)} {oz(eos)} {lz(flat.tolist())} "
                                                f"{lz([zs(x) for x in lps[2].reshape(num).tolist()])}"))
     else:
-        res["terms"].append(("model_log_prob", f"check_dist_log_prob_batched {cz(TOL)} {tab} {cz(V)} {oz(eos)} {lz(flat.tolist())} "
+        res["terms"].append(("model_log_prob", f"check_dist_log_prob_batched {cz(tol)} {tab} {cz(V)} {oz(eos)} {lz(flat.tolist())} "
                                                f"{lz([[zs(x) for x in r] for r in lps[2].reshape(num, bsz).tolist()])}"))
     # support
     if T is not None and 1 <= T and V ** T <= 100 and case.get("support", True):
@@ -498,8 +609,22 @@ def dist_eval(case):
             res["fail"].append(f"log_prob of the enumerated support raised {exc_kind(e)}: {str(e)[:80]}")
             return res
         mass = slp.double().exp().sum(0)
-        if not torch.allclose(mass, torch.ones_like(mass), atol=1e-9, rtol=0):
+        if not torch.allclose(mass, torch.ones_like(mass), atol=1e-4 if case.get("dtype") == "f32" else 1e-9, rtol=0):
             res["fail"].append(f"probabilities over the enumerated support sum to {mass.tolist()}")
+        if case.get("xm"):
+            # extreme regime: most of the support has probability exactly 0 in floating point, yet every member's
+            # log-probability is finite and is the model's (the table now also holds the rows asked for by this call)
+            if not torch.isfinite(slp).all():
+                res["fail"].append("non-finite log_prob of a member of the enumerated support (finite logits)")
+            tab = table_term(rec)
+            ls_all = torch.tensor([row for row in rec.values()], dtype=torch.float64) / 4
+            tol_s, _ = tols(case, T, absmax(ls_all.log_softmax(-1)))
+            if bsz is None:
+                res["terms"].append(("model_log_prob_support", f"check_dist_log_prob {cz(tol_s)} {tab} {cz(V)} {oz(eos)} "
+                                     f"{lz(sup.tolist())} {lz([zs(x) for x in slp.tolist()])}"))
+            else:
+                res["terms"].append(("model_log_prob_support", f"check_dist_log_prob_batched {cz(tol_s)} {tab} {cz(V)} {oz(eos)} "
+                                     f"{lz(sup.tolist())} {lz([[zs(x) for x in r] for r in slp.tolist()])}"))
         padded = torch.nn.functional.pad(sample, (0, T - S), value=eos if eos is not None else 0).reshape(-1, T)
         member = (padded.unsqueeze(1) == sup2.unsqueeze(0)).all(-1).any(1)
         if not bool(member.all()):
@@ -521,7 +646,9 @@ def greedy_eval(case):
         hi = 8 if ip else 6
         lo = 0 if ip else -6
         vals = [r.randint(lo, hi) for _ in range(N * T * V)]
-    x = torch.tensor(vals, dtype=torch.float64).view(N, T, V) / (8 if ip else 4)
+        if not ip:
+            vals = xm_apply(vals, V, case, "greedy")
+    x = (torch.tensor(vals, dtype=torch.float64).view(N, T, V) / (8 if ip else 4)).to(torch.float64 if ip else case_dtype(case))
     inp = x if bf else x.transpose(0, 1).contiguous()
     lt = None if lens is None else torch.tensor(lens, dtype=torch.long)
     res = {"terms": [], "spec": [], "fail": [], "nontrivial": False}
@@ -531,9 +658,12 @@ def greedy_eval(case):
     except Exception as e:  # noqa: BLE001
         exc = exc_kind(e)
     if ip:
-        lp, one = [[[int(v) for v in row] for row in el] for el in (x * 8).tolist()], 8
+        lp, one, tol = [[[int(v) for v in row] for row in el] for el in (x * 8).tolist()], 8, 0
     else:
-        lp, one = _scaled(x.log_softmax(-1)), 0
+        ls = x.double().log_softmax(-1)  # the oracle is float64 whatever the input dtype
+        lp, one = _scaled(ls), 0
+        # the score sums the frame maxima, each in [-log V, 0] however extreme the logits
+        tol, _ = tols(case, T, absmax(ls.max(-1)[0]) if V else 0.0)
     lp_c = lz(lp)
     lens_c = "None" if lens is None else co(lz(lens))
     if exc is not None:
@@ -547,6 +677,8 @@ def greedy_eval(case):
         if tuple(sc.shape) != (N,) or tuple(paths.shape) != (N, T) or tuple(olens.shape) != (N,):
             res["fail"].append("output shapes")
             return res
+        if not torch.isfinite(sc).all():
+            res["fail"].append(f"non-finite score {sc.tolist()} (finite logits: the best label of a frame has log-probability >= -log V)")
         if ip:
             scz = []
             for v in sc.tolist():
@@ -564,11 +696,11 @@ def greedy_eval(case):
             return res
         impl_c = co(cp(lz(scz), ln(pl), ln(ol)))
         b = (blank + V) % V
-        res["spec"].append(("spec_greedy", f"spec_greedy_okb {cz(0 if ip else TOL)} {cb(ip)} {cz(one)} {cn(b)} {cn(T)} {lens_c} {lp_c} "
+        res["spec"].append(("spec_greedy", f"spec_greedy_okb {cz(tol)} {cb(ip)} {cz(one)} {cn(b)} {cn(T)} {lens_c} {lp_c} "
                                            f"{lz(scz)} {ln(pl)} {ln(ol)}"))
         eff = [T if lens is None else max(0, min(T, lens[n])) for n in range(N)]
         res["nontrivial"] = any(ol[n] < eff[n] and eff[n] >= 2 for n in range(N))
-    res["terms"].append(("model", f"check_greedy {cz(0 if ip else TOL)} {cb(ip)} {cz(one)} {cz(V)} {cz(blank)} {cn(T)} {lens_c} {lp_c} {impl_c}"))
+    res["terms"].append(("model", f"check_greedy {cz(tol)} {cb(ip)} {cz(one)} {cz(V)} {cz(blank)} {cn(T)} {lens_c} {lp_c} {impl_c}"))
     return res
 
 
@@ -652,62 +784,99 @@ def gen_exhaustive(chk):
     return cases
 
 
+def _g_slp(rng):
+    nd = rng.choice([1, 2, 2, 3, 3, 4])
+    shape = [rng.choice([0, 1, 1, 2, 2, 3]) for _ in range(nd)]
+    d = rng.randrange(nd)
+    shape[d] = rng.choice([0, 1, 2, 3, 4, 5, 6])
+    V = rng.choice([1, 2, 3, 3, 4, 5])
+    eos = rng.choice([None, None, rng.randrange(V), rng.randrange(V), -1, V, V + 2])
+    dim = rng.choice([d, d - nd])
+    if rng.random() < 0.04:
+        dim = rng.choice([nd, -nd - 1, nd + 2])
+    return dict(api="slp", shape=shape, dim=dim, V=V, eos=eos, seed=rng.randrange(2 ** 31), stream="rnd-slp")
+
+
+def _g_ps(rng):
+    N = rng.choice([1, 2, 3, 3, 4, 5])
+    lens = [rng.choice([1, 1, 2, 3, 4, 5]) for _ in range(N)]
+    V = rng.choice([1, 2, 3, 4])
+    return dict(api="ps", lens=lens, Tpad=rng.choice([0, 0, 1, 2]), V=V, dim=rng.choice([0, 1, -1, -2]), sorted=rng.random() < 0.3,
+                eos=rng.choice([None, 0, V - 1]), seed=rng.randrange(2 ** 31), stream="rnd-ps")
+
+
+def _g_walk(rng):
+    V = rng.choice([1, 2, 2, 3, 3, 4])
+    eos = rng.choice([None, None] + [rng.randrange(-V, V)] * 3)
+    N = rng.choice([None, 0, 1, 2, 2, 3, 3, 4])
+    mi = rng.choice([None, 0, 1, 2, 3, 4, 5, 6])
+    c = dict(api="walk", V=V, eos=eos, N=N, max_iters=mi, lmseed=rng.randrange(10 ** 6), by_n=rng.random() < 0.6, stream="rnd-walk")
+    if rng.random() < 0.5:
+        c["script"] = [[rng.randrange(V) for _ in range(rng.randint(1, 4))] for _ in range(rng.randint(1, 6))]
+    else:
+        c["tseed"] = rng.randrange(2 ** 31)
+    if rng.random() < 0.02:
+        c["eos"] = rng.choice([V, -V - 1])
+    return c
+
+
+def _g_dist(rng):
+    V = rng.choice([2, 2, 3, 3, 4])
+    eos = rng.choice([None, rng.randrange(-V, V), rng.randrange(-V, V)])
+    bsz = rng.choice([None, None, 1, 2, 3])
+    mi = rng.choice([1, 2, 3, 4, 5] + ([None] if eos is not None else []))
+    shape = rng.choice([[1], [2], [3], [4], [2, 1], [1, 3], [0], [2, 0]] + ([[2, 2], [1, 1, 2]] if bsz is not None else []))
+    c = dict(api="dist", V=V, eos=eos, batch_size=bsz, max_iters=mi, sample_shape=shape, cache=rng.random() < 0.5,
+             validate=rng.random() < 0.5, lmseed=rng.randrange(10 ** 6), by_n=bsz is not None, stream="rnd-dist")
+    if rng.random() < 0.4:
+        c["script"] = [[rng.randrange(V) for _ in range(rng.randint(1, 3))] for _ in range(rng.randint(1, 5))]
+    else:
+        c["tseed"] = rng.randrange(2 ** 31)
+    if rng.random() < 0.4:
+        # an initial state the model's output depends on (a (V,) bias in quarter units, broadcast over all paths)
+        c["bias"] = [rng.randint(-10, 10) for _ in range(V)]
+    return c
+
+
+def _g_greedy(rng):
+    N, T, V = rng.choice([0, 1, 1, 2, 3]), rng.choice([0, 1, 2, 3, 4, 5, 6, 8]), rng.choice([1, 2, 2, 3, 3, 4])
+    blank = rng.randrange(-V, V)
+    if rng.random() < 0.04:
+        blank = rng.choice([V, -V - 1, V + 3])
+    lens = None if rng.random() < 0.3 else [rng.choice([0, 1, T - 1, T, T, T + 1, rng.randint(0, T + 1), -1]) for _ in range(N)]
+    return dict(api="greedy", N=N, T=T, V=V, blank=blank, batch_first=rng.random() < 0.5, is_probs=rng.random() < 0.5,
+                lens=lens, seed=rng.randrange(2 ** 31), stream="rnd-greedy")
+
+
+GEN = {"slp": _g_slp, "ps": _g_ps, "walk": _g_walk, "dist": _g_dist, "greedy": _g_greedy}
+
+
 def gen_random(chk):
     rng = chk.rng
     thorough = chk.tier == "thorough"
     n = dict(slp=4000, ps=2500, walk=2500, dist=1500, greedy=4000) if thorough else dict(slp=420, ps=260, walk=260, dist=140, greedy=420)
+    return [GEN[api](rng) for api in ("slp", "ps", "walk", "dist", "greedy") for _ in range(n[api])]
+
+
+def gen_extreme(chk):
+    """the same structured streams with logits of extreme magnitude (every API that normalises logits), float32 and float64.
+    Drawn after gen_random, so the plain streams of a seed are what they were before this regime existed"""
+    rng = chk.rng
+    thorough = chk.tier == "thorough"
+    n = dict(slp=1200, ps=800, walk=800, dist=500, greedy=1200) if thorough else dict(slp=130, ps=80, walk=90, dist=50, greedy=110)
     cases = []
-    for _ in range(n["slp"]):
-        nd = rng.choice([1, 2, 2, 3, 3, 4])
-        shape = [rng.choice([0, 1, 1, 2, 2, 3]) for _ in range(nd)]
-        d = rng.randrange(nd)
-        shape[d] = rng.choice([0, 1, 2, 3, 4, 5, 6])
-        V = rng.choice([1, 2, 3, 3, 4, 5])
-        eos = rng.choice([None, None, rng.randrange(V), rng.randrange(V), -1, V, V + 2])
-        dim = rng.choice([d, d - nd])
-        if rng.random() < 0.04:
-            dim = rng.choice([nd, -nd - 1, nd + 2])
-        cases.append(dict(api="slp", shape=shape, dim=dim, V=V, eos=eos, seed=rng.randrange(2 ** 31), stream="rnd-slp"))
-    for _ in range(n["ps"]):
-        N = rng.choice([1, 2, 3, 3, 4, 5])
-        lens = [rng.choice([1, 1, 2, 3, 4, 5]) for _ in range(N)]
-        V = rng.choice([1, 2, 3, 4])
-        cases.append(dict(api="ps", lens=lens, Tpad=rng.choice([0, 0, 1, 2]), V=V, dim=rng.choice([0, 1, -1, -2]), sorted=rng.random() < 0.3,
-                          eos=rng.choice([None, 0, V - 1]), seed=rng.randrange(2 ** 31), stream="rnd-ps"))
-    for _ in range(n["walk"]):
-        V = rng.choice([1, 2, 2, 3, 3, 4])
-        eos = rng.choice([None, None] + [rng.randrange(-V, V)] * 3)
-        N = rng.choice([None, 0, 1, 2, 2, 3, 3, 4])
-        mi = rng.choice([None, 0, 1, 2, 3, 4, 5, 6])
-        c = dict(api="walk", V=V, eos=eos, N=N, max_iters=mi, lmseed=rng.randrange(10 ** 6), by_n=rng.random() < 0.6, stream="rnd-walk")
-        if rng.random() < 0.5:
-            c["script"] = [[rng.randrange(V) for _ in range(rng.randint(1, 4))] for _ in range(rng.randint(1, 6))]
-        else:
-            c["tseed"] = rng.randrange(2 ** 31)
-        if rng.random() < 0.02:
-            c["eos"] = rng.choice([V, -V - 1])
-        cases.append(c)
-    for _ in range(n["dist"]):
-        V = rng.choice([2, 2, 3, 3, 4])
-        eos = rng.choice([None, rng.randrange(-V, V), rng.randrange(-V, V)])
-        bsz = rng.choice([None, None, 1, 2, 3])
-        mi = rng.choice([1, 2, 3, 4, 5] + ([None] if eos is not None else []))
-        shape = rng.choice([[1], [2], [3], [4], [2, 1], [1, 3], [0], [2, 0]] + ([[2, 2], [1, 1, 2]] if bsz is not None else []))
-        c = dict(api="dist", V=V, eos=eos, batch_size=bsz, max_iters=mi, sample_shape=shape, cache=rng.random() < 0.5,
-                 validate=rng.random() < 0.5, lmseed=rng.randrange(10 ** 6), by_n=bsz is not None, stream="rnd-dist")
-        if rng.random() < 0.4:
-            c["script"] = [[rng.randrange(V) for _ in range(rng.randint(1, 3))] for _ in range(rng.randint(1, 5))]
-        else:
-            c["tseed"] = rng.randrange(2 ** 31)
-        cases.append(c)
-    for _ in range(n["greedy"]):
-        N, T, V = rng.choice([0, 1, 1, 2, 3]), rng.choice([0, 1, 2, 3, 4, 5, 6, 8]), rng.choice([1, 2, 2, 3, 3, 4])
-        blank = rng.randrange(-V, V)
-        if rng.random() < 0.04:
-            blank = rng.choice([V, -V - 1, V + 3])
-        lens = None if rng.random() < 0.3 else [rng.choice([0, 1, T - 1, T, T, T + 1, rng.randint(0, T + 1), -1]) for _ in range(N)]
-        cases.append(dict(api="greedy", N=N, T=T, V=V, blank=blank, batch_first=rng.random() < 0.5, is_probs=rng.random() < 0.5,
-                          lens=lens, seed=rng.randrange(2 ** 31), stream="rnd-greedy"))
+    for api in ("slp", "ps", "walk", "dist", "greedy"):
+        for k in range(n[api]):
+            c = GEN[api](rng)
+            c["xm"] = XM_MODES[k % len(XM_MODES)] if k < 2 * len(XM_MODES) else rng.choice(XM_MODES)
+            c["dtype"] = ("f32", "f64")[(k // len(XM_MODES)) % 2] if k < 2 * len(XM_MODES) else rng.choice(["f32", "f64"])
+            c["stream"] = "xm-" + api
+            if api == "greedy":
+                c["is_probs"] = False  # probabilities are not normalised by the API
+                c["V"] = max(c["V"], rng.choice([1, 2, 3]))
+            if api in ("slp", "ps"):
+                c["V"] = max(c["V"], 2)  # one class: log_softmax is 0 whatever the magnitude
+            cases.append(c)
     return cases
 
 
@@ -866,11 +1035,17 @@ def run(chk, cases=None):
         "plus walk log-prob == sequence_log_probs of the LM outputs; dist: SequentialLanguageModelDistribution.sample stacking, log_prob "
         "(three times: first, cached, cleared) == walk log-probs == Model.dist_log_prob, enumerate_support == Model.enumerate_support, mass "
         "over the support == 1, samples in support; greedy: ctc_greedy_search vs Model.ctc_greedy (exact on dyadic probabilities when "
-        "is_probs). float64 log_softmax results enter the model on a 2^-40 grid, tolerance 512 units. non-trivial = (slp) a sequence of "
+        "is_probs). float64 log_softmax results enter the model on a 2^-40 grid, tolerance 512 units. Extreme-magnitude streams (xm-*): "
+        "every API that normalises logits also runs on rows scaled by 100..1000, shifted by a common -1e3..+1e3, or with one logit "
+        "dominating by 90..900 nats (other probabilities subnormal or exactly 0), as float32 and float64 (values are exact k/4 in "
+        "both); the oracle stays torch's float64 log_softmax of the same values; tolerance there = 512 units + the rounding of the "
+        "implementation's own sum (float64: (n+1)*max|lp|*2^-50; float32: (n+1)*(1+max|lp|)*2^-19); a non-finite output is a "
+        "failure by itself (finite logits have finite log-probabilities; the zero-probability token scores -(hundreds), not -inf). non-trivial = (slp) a sequence of "
         "length>=2 with an out-of-vocabulary token or an eos before its end; (ps) ragged lengths; (walk) >=2 steps and a path that ended "
         "early or the step limit hit; (dist) a non-empty sample re-scored; (greedy) a repeat or blank removed inside the valid length")
     chk.assumptions += [
-        "torch.log_softmax (float64) is an oracle: its result is data for the model (regime T of DESIGN.md section 3)",
+        "torch.log_softmax (float64) is an oracle: its result is data for the model (regime T of DESIGN.md section 3); for float32 "
+        "inputs the oracle is the float64 log_softmax of the same (exactly representable) logits",
         "torch.multinomial never returns a zero-probability index (scripted draws respect this)",
         "the language model is a per-element function of (batch index, prefix); RandomWalk.update_log_probs_for_step is the default",
         "max_iters=None is modelled as 'no limit' (the code uses 2^30)",
@@ -878,7 +1053,7 @@ def run(chk, cases=None):
     ]
     replaying = cases is not None
     if cases is None:
-        cases = gen_exhaustive(chk) + [dict({k: v for k, v in c.items() if k != "note"}, stream="corpus") for c in load_corpus("C07") if "api" in c] + gen_random(chk)
+        cases = gen_exhaustive(chk) + [dict({k: v for k, v in c.items() if k != "note"}, stream="corpus") for c in load_corpus("C07") if "api" in c] + gen_random(chk) + gen_extreme(chk)
     results, terms = [], []
     for c in cases:
         stream = c.pop("stream", "random")
@@ -887,6 +1062,11 @@ def run(chk, cases=None):
         terms.append(_term(res))
         chk.note_case(c, res["nontrivial"], stream)
         chk.count("api=" + c["api"])
+        if c.get("xm"):
+            chk.count(f"xm.{c['api']}.mode={c['xm']}")
+            chk.count(f"xm.{c['api']}.dtype={c.get('dtype', 'f64')}")
+            if "zero_prob_token" in res:
+                chk.count(f"xm.slp.hyp_through_zero_probability_token={res['zero_prob_token']}")
         for k in ("eos", "dim", "batch_first", "is_probs", "sorted", "batch_size", "max_iters", "cache", "N", "blank"):
             if k in c and c["api"] in ("slp", "ps", "walk", "dist", "greedy"):
                 v = c[k]
